@@ -288,10 +288,11 @@ class Scheduler(object):
                 free = [r for r in enabled if not hb(self, r)]
                 if free:
                     return self.strategy.choose(self, free)
-                timed = [r.op[2] for r in recs if r.state == "blocked" and r.op and r.op != "aborted"
+                timed = [(r.op[2], r.name) for r in recs if r.state == "blocked" and r.op and r.op != "aborted"
                          and r.op[2] is not None and r not in enabled]
-                if timed and min(timed) <= self.strategy.patience_until(self):
-                    self.now = max(self.now, min(timed))
+                # (never across a timer of the scenario's main thread: a parked thread must not outlive the scenario)
+                if timed and min(timed)[0] <= self.strategy.patience_until(self) and min(timed)[1] != "main":
+                    self.now = max(self.now, min(timed)[0])
                     continue
                 self.strategy.give_up(self)
                 return self.strategy.choose(self, enabled)
